@@ -206,6 +206,8 @@ class Lib:
         np["column_stack"] = LibFunc("np.column_stack", self.np_column_stack)
         np["where"] = LibFunc("np.where", self.np_where)
         np["arange"] = LibFunc("np.arange", self.np_arange)
+        np["full"] = LibFunc("np.full", self.np_full)
+        np["full_like"] = LibFunc("np.full_like", self.np_full_like)
         np["power"] = LibFunc("np.power", lambda i, a, b: i.binop("**", a, b))
         np["int32"] = DType("int32")
         np["int64"] = DType("int64")
@@ -505,20 +507,52 @@ class Lib:
                     b if sv.is_scalar(norm(b)) else _arr(b, interp))
 
     def np_arange(self, interp, *args, dtype=None):
+        real_args = any(isinstance(norm(x), Fraction) or (isinstance(norm(x), SV) and norm(x).is_real) for x in args)
+        as_float = False
         if dtype is not None:
-            # np.arange(n, dtype=<integer type>): the integers themselves (A2: machine integers are mathematical integers)
-            dn = A.norm_dtype(dtype)
-            if dn != "int" or any(isinstance(norm(x), Fraction) or (isinstance(norm(x), SV) and norm(x).is_real) for x in args):
-                raise EngineError("np.arange with a non-integer dtype")
+            # np.arange(n, dtype=<integer type>): the integers themselves (A2: machine integers are mathematical integers);
+            # np.arange(<integers>, dtype=<float type>): the same integers as reals (A1)
+            dn = A.norm_dtype(dtype.name if isinstance(dtype, DType) else dtype)
+            if real_args or dn not in ("int", "float"):
+                raise EngineError("np.arange with a non-integer argument and a dtype, or a non-numeric dtype")
+            as_float = dn == "float"
+        step = 1
         if len(args) == 1:
             lo, hi = 0, norm(args[0])
         else:
             lo, hi = norm(args[0]), norm(args[1])
             if len(args) > 2:
-                raise EngineError("arange step")
-        n = A.simp(sv.sub(hi, lo))
-        dt = "float" if any(isinstance(norm(x), Fraction) or (isinstance(norm(x), SV) and norm(x).is_real) for x in args) else "int"
-        return A.new_arr((n,), lambda idx: A.simp(sv.add(lo, idx[0])), dt)
+                step = norm(args[2])
+                if real_args or not (isinstance(step, int) and not isinstance(step, bool) and step in (1, -1)):
+                    raise EngineError("np.arange with a step other than +1 / -1")
+        # number of elements: hi - lo for step +1, lo - hi for step -1 (numpy gives max(., 0); a negative count is excluded by the
+        # side obligation below, so that the closed form is exact)
+        n = A.simp(sv.sub(hi, lo)) if step == 1 else A.simp(sv.sub(lo, hi))
+        if len(args) > 2 and not is_conc(n):
+            cur().require(sv.cmp(">=", n, 0), "arange-count-nonnegative")
+        dt = "float" if (real_args or as_float) else "int"
+        if step == 1:
+            fn = (lambda idx: A.simp(sv.add(lo, idx[0])))
+        else:
+            fn = (lambda idx: A.simp(sv.sub(lo, idx[0])))
+        if as_float:
+            return A.new_arr((n,), lambda idx: sv.to_real(fn(idx)), dt)
+        return A.new_arr((n,), fn, dt)
+
+    def np_full(self, interp, shape, fill_value, dtype=None, **kw):
+        """np.full(shape, v): every element is v (cast to dtype if given)"""
+        z = self.np_zeros(interp, shape, dtype if dtype is not None else ("int" if (isinstance(norm(fill_value), int) or (isinstance(norm(fill_value), SV) and not norm(fill_value).is_real)) and not isinstance(norm(fill_value), bool) else None))
+        return A.binop("+", z, fill_value)
+
+    def np_full_like(self, interp, a, fill_value, dtype=None, **kw):
+        """np.full_like(a, v): shape and dtype of a, every element v cast to that dtype (an integer array truncates a real v:
+        only integer-valued v are modelled for integer arrays)"""
+        a = _arr(a, interp)
+        z = self.np_zeros_like(interp, a, dtype)
+        v = norm(fill_value)
+        if z.dtype == "int" and (isinstance(v, Fraction) or (isinstance(v, SV) and v.is_real)):
+            raise EngineError("np.full_like of an integer array with a real fill value (truncation)")
+        return A.binop("+", z, fill_value)
 
     # ------------------------------------------------------------------ module / value attribute protocol
     def module_attr(self, interp, mod, name):
